@@ -5,8 +5,10 @@
 (* path; src/util/util_unix.go KillCommand = SIGKILL to the process group).                                          *)
 (*                                                                                                                    *)
 (* One action per critical section / channel operation:                                                              *)
-(*   user        Move, EditQuery, Toggle, TogglePreview, Scroll, Rewrap, Exit   (one iteration of the action loop,    *)
-(*               under t.mutex)                                                                                       *)
+(*   user        Move, EditQuery, Toggle, TogglePreview, Scroll, Rewrap, Reload, Exit   (one iteration of the action  *)
+(*               loop, under t.mutex)                                                                                 *)
+(*   coordinator UpdateList: the list of a NEW INPUT GENERATION is handed to the terminal (Terminal.UpdateList on a   *)
+(*               revision that is not compatible with the one on display: after reload / reload-sync)                 *)
 (*   render loop Render (reqList: focus or t.version changed -> refreshPreview), RefreshSet, Display (DisplayFull /   *)
 (*               DisplayAppend), Repaint (reqPreviewRefresh), Loading (reqPreviewDelayed)                             *)
 (*               refreshPreview = TRY-SEND `cancel` on the unbuffered killChan, THEN overwrite the one-slot           *)
@@ -57,6 +59,13 @@
 (*                   (the render loop would have to sleep through a kill, a reap and a start): the version goes back  *)
 (*   LostOffsetReset the first result of a command (the only one that resets the scroll offset) is overwritten in     *)
 (*                   the one-slot box by a later result of the same command before the render loop saw it             *)
+(*   StaleAfterReload the list was replaced by the one of a new input generation - another LINE is under the cursor,  *)
+(*                   although its item index (and position) may be what it was - and nothing told the render loop:    *)
+(*                   focusedIndex = currentIndex and t.version unchanged, no refreshPreview.  Impossible in the code  *)
+(*                   as it is (UpdateList bumps t.version whenever the revision changes: ReloadBumpsVersion = TRUE);  *)
+(*                   ReloadBumpsVersion = FALSE is "bump only if a selection was cleared" (MC_Preview_dev_reload.cfg)  *)
+(* THE LIST IS A FUNCTION OF THE INPUT GENERATION.  `gen` = the generation on display (t.revision.major); the line     *)
+(* under the cursor is LineAt(gen, focus): a CONTENT, not an index.  Requests, outputs and rows name the line.          *)
 (* The properties are proved on the behaviours in which no deviation fired (dev = {}); MC_Preview_dev*.cfg check the *)
 (* strict versions and keeps TLC's counterexamples.                                                                   *)
 EXTENDS Integers, Sequences, FiniteSets, TLC, FzfPreviewTree
@@ -68,16 +77,24 @@ CONSTANTS MaxUI,          \* bound on user actions
           H,              \* rows of the preview window
           LensKind,       \* "mixed": outputs shorter than, equal to and taller than the window; "one": one line each
           WithScroll,     \* the user may scroll the preview (preview-up / preview-down) and toggle its wrap mode
+          WithReload,     \* the user may replace the input (reload / reload-sync)
+          ReloadBumpsVersion, \* Terminal.UpdateList bumps t.version whenever the list revision changed (the code); FALSE = only
+                              \* when the reload had a selection to clear (deviation StaleAfterReload)
           DelayedSetsVersion  \* reqPreviewDelayed assigns t.previewer.version (finding F24); FALSE = the version is handed to
                               \* printPreviewDelayed instead.  The cfgs take it from FzfPreviewTree (`<- TreeDelayedSetsVersion`, the one
                               \* switch that says which previewer the checked tree has) unless they pin it on purpose
 
 None == [none |-> TRUE]
-(* Lens[focus + 2 * q] = number of lines the command for that line / query prints *)
+(* the content of the line with item index i in input generation g: the same index in another generation is ANOTHER  *)
+(* line (a reload that brings back the very same lines needs no new preview: not the case of interest)               *)
+LineAt(g, i) == <<g, i>>
+IndexOf(line) == line[2]
+(* Lens[index + 2 * q] = number of lines the command for that line / query prints *)
 Lens == IF LensKind = "mixed" THEN <<3, 1, 2, 3>> ELSE <<1, 1, 1, 1>>
 Blank == <<None, 0>>                              \* an empty row
 
 VARIABLES focus, q, sel, tver, visible, acts,     \* terminal state (t.cy's item, t.input, t.selected, t.version, preview window)
+          gen, rl,                                \* input generation of the list on display (t.revision.major); a newer one is on its way
           dirty, rfocus, rver,                    \* render loop: reqList pending; focusedIndex / version it last acted on
           uipc, ureq,                             \* continuation of a critical section: idle | set | quit2 | quit3 | quit4
           pbox, pquit,                            \* previewBox: the pending request (or None), reqQuit
@@ -89,11 +106,12 @@ VARIABLES focus, q, sel, tver, visible, acts,     \* terminal state (t.cy's item
           pd, screen,                             \* t.previewed: [ver, n, off, filled] (+ ghost req); the rows of the window
           quitting, ctxDone, procExited,
           alive, lastStarted, lastEnq, dev        \* ghosts: versions whose process group is alive; request started / announced last
-vars == <<focus, q, sel, tver, visible, acts, dirty, rfocus, rver, uipc, ureq, pbox, pquit, pst, pver, preq, wst, dtimer, cst, ckind,
+vars == <<focus, q, sel, tver, visible, acts, gen, rl, dirty, rfocus, rver, uipc, ureq, pbox, pquit, pst, pver, preq, wst, dtimer, cst, ckind,
           cout, rendered, ticked, fin, dbox, refbox, delbox, shown, poff, pd, screen, quitting, ctxDone, procExited, alive,
           lastStarted, lastEnq, dev>>
 
-uiVars   == <<focus, q, sel, tver, visible, acts>>
+listVars == <<gen, rl>>
+uiVars   == <<focus, q, sel, tver, visible, acts, gen, rl>>
 rendVars == <<dirty, rfocus, rver>>
 pvVars   == <<pst, pver, preq>>
 cmdVars  == <<cst, ckind, cout, rendered, ticked, fin>>
@@ -102,12 +120,13 @@ winVars  == <<shown, poff, pd, screen>>            \* what the render loop knows
 boxVars  == <<dbox, refbox, delbox>>
 
 (* the request for the present terminal state: what {} {n} {f}, {q}, {+} {+n} {+f} would be substituted with *)
-CurReq == [focus |-> focus, q |-> IF TemplateHasQ THEN q ELSE 0, sel |-> sel]
+CurLine == LineAt(gen, focus)
+CurReq == [line |-> CurLine, q |-> IF TemplateHasQ THEN q ELSE 0, sel |-> sel]
 (* how many lines the command for a request prints *)
-NLines(r) == Lens[r.focus + 2 * r.q]
+NLines(r) == Lens[IndexOf(r.line) + 2 * r.q]
 NoLines == [ver |-> 0, req |-> None, n |-> 0]
 
-Init == /\ focus = 1 /\ q = 0 /\ sel = 0 /\ tver = 0 /\ visible = TRUE /\ acts = 0
+Init == /\ focus = 1 /\ q = 0 /\ sel = 0 /\ tver = 0 /\ visible = TRUE /\ acts = 0 /\ gen = 0 /\ rl = FALSE
         /\ dirty = TRUE /\ rfocus = 0 /\ rver = -1
         /\ uipc = "idle" /\ ureq = None /\ pbox = None /\ pquit = FALSE
         /\ pst = "wait" /\ pver = 0 /\ preq = None /\ wst = "none" /\ dtimer = FALSE
@@ -175,13 +194,13 @@ LoadingS(s) ==
 (* User: one iteration of the action loop; it holds t.mutex, so it excludes the render loop's critical sections *)
 CanAct == uipc = "idle" /\ acts < MaxUI /\ ~quitting /\ ~procExited
 Move == /\ CanAct /\ focus' = 3 - focus /\ dirty' = TRUE /\ acts' = acts + 1
-        /\ UNCHANGED <<q, sel, tver, visible, rfocus, rver, uipc, ureq, pbox, pquit, pvVars, wst, dtimer, cmdVars, boxVars, winVars, endVars,
+        /\ UNCHANGED <<q, sel, tver, visible, listVars, rfocus, rver, uipc, ureq, pbox, pquit, pvVars, wst, dtimer, cmdVars, boxVars, winVars, endVars,
                        alive, lastStarted, lastEnq, dev>>
 EditQuery == /\ CanAct /\ q' = 1 - q /\ tver' = (IF TemplateHasQ THEN tver + 1 ELSE tver) /\ dirty' = TRUE /\ acts' = acts + 1
-             /\ UNCHANGED <<focus, sel, visible, rfocus, rver, uipc, ureq, pbox, pquit, pvVars, wst, dtimer, cmdVars, boxVars, winVars, endVars,
+             /\ UNCHANGED <<focus, sel, visible, listVars, rfocus, rver, uipc, ureq, pbox, pquit, pvVars, wst, dtimer, cmdVars, boxVars, winVars, endVars,
                             alive, lastStarted, lastEnq, dev>>
 Toggle == /\ CanAct /\ sel' = 1 - sel /\ tver' = tver + 1 /\ dirty' = TRUE /\ acts' = acts + 1
-          /\ UNCHANGED <<focus, q, visible, rfocus, rver, uipc, ureq, pbox, pquit, pvVars, wst, dtimer, cmdVars, boxVars, winVars, endVars,
+          /\ UNCHANGED <<focus, q, visible, listVars, rfocus, rver, uipc, ureq, pbox, pquit, pvVars, wst, dtimer, cmdVars, boxVars, winVars, endVars,
                          alive, lastStarted, lastEnq, dev>>
 (* toggle-preview: hiding cancels the running command and drops the lines; showing cancels and enqueues from the     *)
 (* action itself.  Either way the windows are laid out again: empty window, t.previewed.version = 0                  *)
@@ -191,28 +210,51 @@ TogglePreview == /\ CanAct /\ visible' = ~visible /\ acts' = acts + 1
                  /\ IF visible THEN UNCHANGED <<uipc, ureq, lastEnq>> ELSE (uipc' = "set" /\ ureq' = CurReq /\ lastEnq' = CurReq)
                  /\ shown' = (IF visible THEN [shown EXCEPT !.n = 0, !.req = None] ELSE shown)
                  /\ screen' = [r \in 1..H |-> Blank] /\ pd' = [pd EXCEPT !.ver = 0]
-                 /\ UNCHANGED <<focus, q, sel, rfocus, rver, pbox, pquit, pvVars, dtimer, ckind, cout, rendered, ticked, fin, boxVars, poff,
+                 /\ UNCHANGED <<focus, q, sel, listVars, rfocus, rver, pbox, pquit, pvVars, dtimer, ckind, cout, rendered, ticked, fin, boxVars, poff,
                                 endVars, lastStarted>>
 (* preview-up / preview-down: scrollPreviewTo, then reqPreviewRefresh.  (t.previewer.scrollable is over-approximated:  *)
 (* any output of two lines or more may be scrolled - the code allows it after a repeated display of the same lines)   *)
 Scroll == /\ WithScroll /\ CanAct /\ visible /\ shown.n >= 2
           /\ \E o \in {poff - 1, poff + 1} : o >= 0 /\ o <= shown.n - 1 /\ poff' = o
           /\ refbox' = TRUE /\ acts' = acts + 1
-          /\ UNCHANGED <<focus, q, sel, tver, visible, rendVars, uipc, ureq, pbox, pquit, pvVars, wst, dtimer, cmdVars, dbox, delbox, shown, pd, screen,
+          /\ UNCHANGED <<focus, q, sel, tver, visible, listVars, rendVars, uipc, ureq, pbox, pquit, pvVars, wst, dtimer, cmdVars, dbox, delbox, shown, pd, screen,
                          endVars, alive, lastStarted, lastEnq, dev>>
 (* toggle-preview-wrap: t.previewed.version = 0 ("so that full redraw occurs"), then reqPreviewRefresh *)
 Rewrap == /\ WithScroll /\ CanAct /\ visible
           /\ pd' = [pd EXCEPT !.ver = 0] /\ refbox' = TRUE /\ acts' = acts + 1
-          /\ UNCHANGED <<focus, q, sel, tver, visible, rendVars, uipc, ureq, pbox, pquit, pvVars, wst, dtimer, cmdVars, dbox, delbox, shown, poff, screen,
+          /\ UNCHANGED <<focus, q, sel, tver, visible, listVars, rendVars, uipc, ureq, pbox, pquit, pvVars, wst, dtimer, cmdVars, dbox, delbox, shown, poff, screen,
+                         endVars, alive, lastStarted, lastEnq, dev>>
+(* reload(CMD) / reload-sync(CMD): the reader is restarted on another command; the list on display stays (reload:     *)
+(* until the first lines of the new input have been matched, reload-sync: until the new input is complete - the same *)
+(* in an untimed model) and every action still works on it; then UpdateList below replaces it                        *)
+Reload == /\ WithReload /\ CanAct /\ ~rl /\ rl' = TRUE /\ acts' = acts + 1
+          /\ UNCHANGED <<focus, q, sel, tver, visible, gen, rendVars, uipc, ureq, pbox, pquit, pvVars, wst, dtimer, cmdVars, boxVars, winVars,
                          endVars, alive, lastStarted, lastEnq, dev>>
 (* any way of leaving (accept, abort, SIGTERM): exit() sets reqQuit on the previewBox, then EvtQuit is set *)
 Exit == /\ CanAct /\ acts' = acts + 1
         /\ pquit' = TRUE /\ quitting' = TRUE /\ uipc' = "quit2"
-        /\ UNCHANGED <<focus, q, sel, tver, visible, rendVars, ureq, pbox, pvVars, wst, dtimer, cmdVars, boxVars, winVars, ctxDone, procExited,
+        /\ UNCHANGED <<focus, q, sel, tver, visible, listVars, rendVars, ureq, pbox, pvVars, wst, dtimer, cmdVars, boxVars, winVars, ctxDone, procExited,
                        alive, lastStarted, lastEnq, dev>>
 
 -------------------------------------------------------------------------------
+(* Coordinator -> terminal: Terminal.UpdateList(merger) with a merger of a revision that is NOT compatible with     *)
+(* t.revision (the input was restarted), under t.mutex.  The items are replaced: the line under the cursor is now      *)
+(* another LINE although the cursor position - and, without a query, the item index - is what it was (a shorter list   *)
+(* may also pull the cursor up); the selection is cleared; t.version++ so that the render loop, which compares item    *)
+(* INDEXES, refreshes the preview all the same; reqList.                                                               *)
+UpdateList == /\ rl /\ uipc = "idle" /\ ~quitting /\ ~procExited
+              /\ rl' = FALSE /\ gen' = gen + 1 /\ sel' = 0
+              /\ \E f \in {focus, 1} : focus' = f
+              /\ tver' = (IF ReloadBumpsVersion \/ sel # 0 THEN tver + 1 ELSE tver)
+              /\ dirty' = TRUE
+              /\ UNCHANGED <<q, visible, acts, rfocus, rver, uipc, ureq, pbox, pquit, pvVars, wst, dtimer, cmdVars, boxVars, winVars, endVars,
+                             alive, lastStarted, lastEnq, dev>>
+
+-------------------------------------------------------------------------------
 (* Render loop *)
+(* the render loop finds neither the focused INDEX nor t.version changed although the request it announced last is  *)
+(* not the one for the present state: the line was replaced under the cursor (reload) / the window was shown again    *)
+StaleCause == IF lastEnq # None /\ lastEnq.line # CurLine /\ IndexOf(lastEnq.line) = focus THEN "StaleAfterReload" ELSE "StaleAfterShow"
 Render == /\ dirty /\ uipc = "idle" /\ ~quitting /\ ~procExited
           /\ dirty' = FALSE
           /\ IF focus # rfocus \/ tver # rver
@@ -221,7 +263,7 @@ Render == /\ dirty /\ uipc = "idle" /\ ~quitting /\ ~procExited
                      THEN TrySend(FALSE) /\ uipc' = "set" /\ ureq' = CurReq /\ lastEnq' = CurReq
                      ELSE UNCHANGED <<wst, cst, alive, dev, uipc, ureq, lastEnq>>
              ELSE /\ UNCHANGED <<rfocus, rver, wst, cst, alive, uipc, ureq, lastEnq>>
-                  /\ dev' = dev \cup (IF visible /\ lastEnq # CurReq THEN {"StaleAfterShow"} ELSE {})
+                  /\ dev' = dev \cup (IF visible /\ lastEnq # CurReq THEN {StaleCause} ELSE {})
           /\ UNCHANGED <<uiVars, pbox, pquit, pvVars, dtimer, ckind, cout, rendered, ticked, fin, boxVars, winVars, endVars, lastStarted>>
 RefreshSet == /\ uipc = "set" /\ ~procExited
               /\ pbox' = ureq /\ uipc' = "idle" /\ ureq' = None
@@ -318,23 +360,26 @@ CmdExit == /\ cst = "running" /\ ckind = "finite" /\ cout = NLines(preq)
                           lastStarted, lastEnq, dev>>
 
 -------------------------------------------------------------------------------
-User == Move \/ EditQuery \/ Toggle \/ TogglePreview \/ Scroll \/ Rewrap \/ Exit
-System == Render \/ RefreshSet \/ Display \/ Repaint \/ Loading \/ ExitKill \/ ExitCtx \/ ProcExit \/ Pick \/ Start \/ Eof \/ Reaped \/ TickDisplay
+User == Move \/ EditQuery \/ Toggle \/ TogglePreview \/ Scroll \/ Rewrap \/ Reload \/ Exit
+System == UpdateList \/ Render \/ RefreshSet \/ Display \/ Repaint \/ Loading \/ ExitKill \/ ExitCtx \/ ProcExit \/ Pick \/ Start \/ Eof \/ Reaped \/ TickDisplay
           \/ WatchEnter \/ WatchFinish \/ WatchTimer \/ WatchKill \/ WatchCtx \/ WatchDelayed \/ CmdOutput \/ CmdExit
 Next == User \/ System
-(* the timer need not fire (commands are usually faster): no fairness for WatchDelayed *)
-Fair == Render \/ RefreshSet \/ Display \/ Repaint \/ Loading \/ ExitKill \/ ExitCtx \/ ProcExit \/ Pick \/ Start \/ Eof \/ Reaped \/ TickDisplay
+(* the timer need not fire (commands are usually faster): no fairness for WatchDelayed; the new input arrives *)
+Fair == UpdateList \/ Render \/ RefreshSet \/ Display \/ Repaint \/ Loading \/ ExitKill \/ ExitCtx \/ ProcExit \/ Pick \/ Start \/ Eof \/ Reaped \/ TickDisplay
         \/ WatchEnter \/ WatchFinish \/ WatchTimer \/ WatchKill \/ WatchCtx \/ CmdOutput \/ CmdExit
 Spec == Init /\ [][Next]_vars /\ WF_vars(Fair)
 
 -------------------------------------------------------------------------------
 (* Properties (C20) *)
-Rows == {Blank} \cup {<<r, i>> : r \in [focus : 1..2, q : 0..1, sel : 0..1], i \in 1..4}
+Lines == {LineAt(g, i) : g \in 0..MaxUI, i \in 1..2}
+Rows == {Blank} \cup {<<r, i>> : r \in [line : Lines, q : 0..1, sel : 0..1], i \in 1..4}
 TypeOK == /\ uipc \in {"idle", "set", "quit2", "quit3", "quit4"}
           /\ pst \in {"wait", "picked", "running", "reaping", "stopped"}
           /\ wst \in {"none", "starting", "selecting", "delaying", "killing", "done"}
           /\ cst \in {"none", "running", "exited", "killed"}
-          /\ dev \subseteq {"LostCancel", "LostKillAtExit", "ExitBeforeKill", "StaleAfterShow", "StaleRows", "LostOffsetReset", "LateLoading"}
+          /\ dev \subseteq {"LostCancel", "LostKillAtExit", "ExitBeforeKill", "StaleAfterShow", "StaleAfterReload", "StaleRows", "LostOffsetReset",
+                            "LateLoading"}
+          /\ gen \in 0..MaxUI /\ rl \in BOOLEAN /\ focus \in 1..2
           /\ DOMAIN screen = 1..H /\ \A r \in 1..H : screen[r] \in Rows
           /\ poff >= 0 /\ cout >= 0 /\ ticked <= cout
 (* superseded commands are terminated before the next one starts: at most one process group alive at any time *)
@@ -343,7 +388,8 @@ OneAlive == Cardinality(alive) <= 1 /\ (alive # {} => alive = {pver} /\ cst = "r
 ShownIsStarted == shown.ver <= pver
 (* a row never shows anything but a line of a command that was started for a request the terminal announced *)
 Quiescent == ~ENABLED Fair
-(* once nothing moves any more: the command started last is the one for the line under the cursor with the current  *)
+(* once nothing moves any more: the command started last is the one for the LINE under the cursor (CurLine: the      *)
+(* content the list of the present input generation has there - not its index, not its position) with the current    *)
 (* query and selection, ITS OUTPUT IS WHAT THE WINDOW SHOWS - every row: the window holds the lines from the scroll  *)
 (* offset on, row by row, rows beyond the output are empty, and the offset lies inside the output - and a command   *)
 (* still alive is that (never-ending) one; after the end of the session no command is alive.                         *)
@@ -362,7 +408,9 @@ ConvergenceLostCancel == (Quiescent /\ ~procExited /\ dev \subseteq {"LostCancel
 ConvergenceStaleAfterShow == (Quiescent /\ ~procExited /\ dev \subseteq {"StaleAfterShow"}) => CaughtUp  \* violated (MaxUI >= 4)
 ConvergenceStaleRows == (Quiescent /\ ~procExited /\ dev \subseteq {"StaleRows"}) => CaughtUp        \* violated (F24, rows of an older preview)
 ConvergenceLostOffsetReset == (Quiescent /\ ~procExited /\ dev \subseteq {"LostOffsetReset"}) => CaughtUp
+ConvergenceStaleAfterReload == (Quiescent /\ ~procExited /\ dev \subseteq {"StaleAfterReload"}) => CaughtUp  \* violated (1 user action)
 ShowFixed == ShowBumpsVersion => "StaleAfterShow" \notin dev          \* with the fix the deviation cannot happen at all
+ReloadFixed == ReloadBumpsVersion => "StaleAfterReload" \notin dev    \* nor this one in the code as it is
 DelayedFixed == ~DelayedSetsVersion => "StaleRows" \notin dev         \* without the assignment in reqPreviewDelayed neither can this one
 (* the optimisation is sound whenever it is taken for lines of the request the rows were painted from: at every      *)
 (* moment the rows 2..H are a window of the lines of ONE request - the one recorded with them                         *)
